@@ -177,7 +177,9 @@ impl FunctionalPosition {
     if *step_size == 0 {
       index == *offset
     } else {
-      let n = index - offset;
+      // offsets near the i32 limits must not overflow
+      let n = i64::from(index) - i64::from(*offset);
+      let step_size = i64::from(*step_size);
       n / step_size >= 0 && n % step_size == 0
     }
   }
